@@ -383,6 +383,12 @@ func (gen *Generator) GenerateMacexpand(args []Sexp) error {
 
 func (gen *Generator) GenerateShortCircuit(or bool, args []Sexp) error {
 	size := len(args)
+	if size == 0 {
+		if or {
+			return fmt.Errorf("or requires at least one argument")
+		}
+		return fmt.Errorf("and requires at least one argument")
+	}
 
 	subgen := gen.NewSubGenerator()
 	subgen.scopes = gen.scopes
